@@ -25,6 +25,26 @@ CLAIMS: dict[str, tuple[str, str, str, str]] = {
         "DESIGN.md §2 C10"),
 }
 
+# clauses added in session 5 (round 6 of seeded defects and the repairs F19-F24); appended to the claim text
+EXTRA: dict[str, str] = {
+    "C01": " The collection of battery groups handed to the allocation holds each group at most once (dataflow to the statements that fill it).",
+    "C03": " Zero tests with a tolerance are modelled with their tolerances; nothing but the proposals and the system bounds feeds the target computation.",
+    "C04": " After an expiry sweep the re-evaluation returns the target of a sweep over what is left; a test of remembered state made by only one of the two sweeps is reported.",
+    "C05": " Expressions are values: no operator of the builder API mutates an operand's token store; operand streams are keyed by engine identity through an injective naming map; both build() methods replay every token kind; the emitted value is the read of the evaluation stack.",
+    "C06": " A round whose inputs carry different timestamps never returns without the awaited synchronisation, whatever other flags say.",
+    "C07": " _window_end has no writer besides the constructor and the per-tick advance in any statement form; a batched sweep advances once per tick; whatever pairs the sweep's results with sources iterates the snapshot the sweep iterated, never the live registry after the await.",
+    "C08": " The buffer and source properties a window is cut from belong to exactly one registration (fresh per add_timeseries, keyed by the source).",
+    "C09": " The gap test that licenses a raw read addresses the slot that is read; MovingWindow's observers return the ring buffer's observer of the same role; the ring buffer's rejection exception cannot leave the loop that feeds the window.",
+    "C13": " MetricFetcher.apply's pushed value depends only on the sample and nones_are_zeros (all other attributes left open); every push_metric reachable from build() takes build()'s own flag; both builds replay every token kind (a sample is emitted for every timestamp).",
+    "C14": " No operation that is partial for some exception shape is applied to the caught exception before the hand-over of the waiting request.",
+    "C15": " The excess a PV result reports is the ledger handed in by distribute_power.",
+    "C16": " The (succeeded, failed) sets that reach the trackers are the command's outcome: disjoint by construction and unfiltered by tracker-side state.",
+    "C17": " C02's table and ledger rules of the distribution are re-issued for the clause that an admitted power can be distributed without entering an exclusion zone.",
+    "C18": " Every received record replaces the cached one; no path of one iteration leaves the loop over the working batteries; the pool SoC is bounded above by 100 on every path.",
+    "C19": " The sample handed on is one of the two received samples whole; a meter is primary of a device kind only if dedicated to it; only the timestamp catch-up loop reads the fallback stream in a cycle; a primary that was not requested is recorded only where everything it measures is requested.",
+    "C20": " The only thing ever sent is a sample of the receive loop's current message, handed to the fan-out once; the registry's channels do not replay.",
+}
+
 CLAIMS["C13"] = (
     "NaN-domain abstract interpretation of every FormulaStep.apply / MetricFetcher.apply AST "
     "(fork-and-replay over undecided comparisons), plus guard-shape rules",
@@ -359,6 +379,7 @@ def build() -> dict:
         if pid not in CLAIMS:
             continue
         tech, text, note, ref = CLAIMS[pid]
+        text = text + EXTRA.get(pid, "")
         # the rules as built (session 2 added clauses; DESIGN.md §7.7): taken from the evidence the check wrote
         try:
             ev = json.loads((VERIF / "evidence" / f"{pid}.json").read_text())
